@@ -201,10 +201,16 @@ pub assume_specification[ FixedPoints::symbolic ](g: &SymbolicAsyncGraph, r: &Gr
 // parameter variables; minus_vertices etc. combine with the cylinder of the projection)
 pub uninterp spec fn gvv(v: &GraphVertices) -> ISet<Seq<bool>>;
 pub uninterp spec fn gvc(c: &GraphColors) -> ISet<int>;
+// (the projections are OPAQUE spec functions: a proof that needs their definition reveals it; otherwise the nested quantifiers would be
+// available for instantiation in every function that merely mentions a projection)
+#[verifier::opaque]
+pub open spec fn proj_vertices(x: ISet<Pt>) -> ISet<Seq<bool>> { ISet::new(|s: Seq<bool>| exists|p: Pt| #[trigger] x.contains(p) && p.s == s) }
+#[verifier::opaque]
+pub open spec fn proj_colors(x: ISet<Pt>) -> ISet<int> { ISet::new(|c: int| exists|p: Pt| #[trigger] x.contains(p) && p.c == c) }
 pub assume_specification[ GraphColoredVertices::vertices ](a: &GraphColoredVertices) -> (r: GraphVertices)
-    ensures forall|s: Seq<bool>| #[trigger] gvv(&r).contains(s) <==> exists|p: Pt| #[trigger] gv(a).contains(p) && p.s == s;
+    ensures gvv(&r) == proj_vertices(gv(a));
 pub assume_specification[ GraphColoredVertices::colors ](a: &GraphColoredVertices) -> (r: GraphColors)
-    ensures forall|c: int| #[trigger] gvc(&r).contains(c) <==> exists|p: Pt| #[trigger] gv(a).contains(p) && p.c == c;
+    ensures gvc(&r) == proj_colors(gv(a));
 pub assume_specification[ GraphColoredVertices::minus_vertices ](a: &GraphColoredVertices, v: &GraphVertices) -> (r: GraphColoredVertices)
     ensures forall|p: Pt| #[trigger] gv(&r).contains(p) <==> gv(a).contains(p) && !gvv(v).contains(p.s);
 pub assume_specification[ GraphColoredVertices::intersect_vertices ](a: &GraphColoredVertices, v: &GraphVertices) -> (r: GraphColoredVertices)
@@ -266,3 +272,54 @@ pub assume_specification[ SymbolicContext::transfer_from ](target: &SymbolicCont
     ensures
         r is Some <==> ext_indep(bv(bdd)),
         r matches Some(b) ==> bv(&b) == bv(bdd) && canonical_bdd(&b);
+// ---- further API surface with an EMPTY contract (a changed function may start to call it: its own obligations then decide)
+pub assume_specification[ Bdd::not ](b: &Bdd) -> (r: Bdd);
+pub assume_specification[ Bdd::or ](b: &Bdd, o: &Bdd) -> (r: Bdd);
+pub assume_specification[ Bdd::and_not ](b: &Bdd, o: &Bdd) -> (r: Bdd);
+pub assume_specification[ Bdd::imp ](b: &Bdd, o: &Bdd) -> (r: Bdd);
+pub assume_specification[ Bdd::xor ](b: &Bdd, o: &Bdd) -> (r: Bdd);
+pub assume_specification[ Bdd::is_true ](b: &Bdd) -> (r: bool);
+pub assume_specification[ Bdd::is_false ](b: &Bdd) -> (r: bool);
+pub assume_specification[ Bdd::size ](b: &Bdd) -> (r: usize);
+pub assume_specification[ Bdd::for_all ](b: &Bdd, vars: &[BddVariable]) -> (r: Bdd);
+pub assume_specification[ Bdd::var_exists ](b: &Bdd, v: BddVariable) -> (r: Bdd);
+pub assume_specification[ Bdd::var_for_all ](b: &Bdd, v: BddVariable) -> (r: Bdd);
+pub assume_specification[ Bdd::var_select ](b: &Bdd, v: BddVariable, x: bool) -> (r: Bdd);
+pub assume_specification[ Bdd::var_restrict ](b: &Bdd, v: BddVariable, x: bool) -> (r: Bdd);
+pub assume_specification[ BddVariableSet::num_vars ](s: &BddVariableSet) -> (r: u16);
+pub assume_specification[ BddVariableSet::var_by_name ](s: &BddVariableSet, name: &str) -> (r: Option<BddVariable>);
+pub assume_specification[ BddVariableSet::name_of ](s: &BddVariableSet, v: BddVariable) -> (r: String);
+pub assume_specification[ BddVariableSet::mk_true ](s: &BddVariableSet) -> (r: Bdd);
+pub assume_specification[ BddVariableSet::mk_false ](s: &BddVariableSet) -> (r: Bdd);
+pub assume_specification[ BddVariableSet::mk_var ](s: &BddVariableSet, v: BddVariable) -> (r: Bdd);
+pub assume_specification[ BddVariableSet::mk_not_var ](s: &BddVariableSet, v: BddVariable) -> (r: Bdd);
+pub assume_specification[ BddVariableSet::mk_literal ](s: &BddVariableSet, v: BddVariable, x: bool) -> (r: Bdd);
+pub assume_specification[ BddVariableSet::mk_not_var_by_name ](s: &BddVariableSet, name: &str) -> (r: Bdd);
+pub assume_specification[ SymbolicContext::network_variables ](c: &SymbolicContext) -> (r: VariableIdIterator);
+pub assume_specification[ SymbolicContext::get_network_variable_name ](c: &SymbolicContext, v: VariableId) -> (r: String);
+pub assume_specification[ SymbolicContext::num_state_variables ](c: &SymbolicContext) -> (r: usize);
+pub assume_specification[ SymbolicContext::num_parameter_variables ](c: &SymbolicContext) -> (r: usize);
+pub assume_specification[ SymbolicContext::num_extra_state_variables ](c: &SymbolicContext) -> (r: usize);
+pub assume_specification[ SymbolicContext::parameter_variables ](c: &SymbolicContext) -> (r: &Vec<BddVariable>);
+pub assume_specification[ SymbolicContext::all_extra_state_variables ](c: &SymbolicContext) -> (r: &Vec<BddVariable>);
+pub assume_specification[ SymbolicContext::get_state_variable ](c: &SymbolicContext, v: VariableId) -> (r: BddVariable);
+pub assume_specification[ SymbolicContext::get_extra_state_variable ](c: &SymbolicContext, v: VariableId, o: usize) -> (r: BddVariable);
+pub assume_specification[ SymbolicContext::find_state_variable ](c: &SymbolicContext, v: BddVariable) -> (r: Option<VariableId>);
+pub assume_specification[ SymbolicContext::mk_extra_state_variable_is_true ](c: &SymbolicContext, v: VariableId, o: usize) -> (r: Bdd);
+pub assume_specification[ SymbolicAsyncGraph::empty_colors ](g: &SymbolicAsyncGraph) -> (r: &GraphColors);
+pub assume_specification[ SymbolicAsyncGraph::mk_empty_colors ](g: &SymbolicAsyncGraph) -> (r: GraphColors);
+pub assume_specification[ SymbolicAsyncGraph::unit_colors ](g: &SymbolicAsyncGraph) -> (r: &GraphColors);
+pub assume_specification[ SymbolicAsyncGraph::empty_colored_vertices ](g: &SymbolicAsyncGraph) -> (r: &GraphColoredVertices);
+pub assume_specification[ SymbolicAsyncGraph::empty_vertices ](g: &SymbolicAsyncGraph) -> (r: &GraphVertices);
+pub assume_specification[ SymbolicAsyncGraph::mk_empty_vertices ](g: &SymbolicAsyncGraph) -> (r: GraphVertices);
+pub assume_specification[ SymbolicAsyncGraph::unit_vertices ](g: &SymbolicAsyncGraph) -> (r: &GraphVertices);
+pub assume_specification[ SymbolicAsyncGraph::mk_unit_vertices ](g: &SymbolicAsyncGraph) -> (r: GraphVertices);
+pub assume_specification[ SymbolicAsyncGraph::num_vars ](g: &SymbolicAsyncGraph) -> (r: usize);
+pub assume_specification[ SymbolicAsyncGraph::fix_network_variable ](g: &SymbolicAsyncGraph, v: VariableId, x: bool) -> (r: GraphColoredVertices);
+pub assume_specification[ SymbolicAsyncGraph::is_trap_set ](g: &SymbolicAsyncGraph, s: &GraphColoredVertices) -> (r: bool);
+pub assume_specification[ SymbolicAsyncGraph::restrict_variable_in_graph ](g: &SymbolicAsyncGraph, v: VariableId, x: bool) -> (r: SymbolicAsyncGraph);
+pub assume_specification[ GraphColoredVertices::pick_vertex ](a: &GraphColoredVertices) -> (r: GraphColoredVertices);
+pub assume_specification[ GraphColoredVertices::pick_color ](a: &GraphColoredVertices) -> (r: GraphColoredVertices);
+pub assume_specification[ GraphColoredVertices::pick_singleton ](a: &GraphColoredVertices) -> (r: GraphColoredVertices);
+pub assume_specification[ GraphColoredVertices::is_singleton ](a: &GraphColoredVertices) -> (r: bool);
+pub assume_specification[ GraphColoredVertices::copy ](a: &GraphColoredVertices, bdd: Bdd) -> (r: GraphColoredVertices);
